@@ -64,13 +64,10 @@ Definition verdict (c : case) : list nat :=
   match c with
   | CCreate n i l u f obs =>
       tag (oparam_eqb (param_create n i l u f) obs) 1 ++
-      match obs with Some p => tag (param_wf p) 11 | None => [] end ++
-      tag (g_bounds_not_nan l u) 201
+      match obs with Some p => tag (param_wf p) 11 | None => [] end
   | CReplace p i l u f obs =>
       tag (oparam_eqb (param_replace p None i l u f) obs) 1 ++
-      match obs with Some q => tag (param_wf q) 11 | None => [] end ++
-      tag (negb (isnan (match l with Some x => x | None => p_lower p end)) &&
-           negb (isnan (match u with Some x => x | None => p_upper p end))) 201
+      match obs with Some q => tag (param_wf q) 11 | None => [] end
   | CSetInits ps inits obs =>
       tag (match set_inits ps inits, obs with
            | Some a, Some b => list_eqb param_eqb a b
@@ -87,10 +84,10 @@ Definition verdict (c : case) : list nat :=
       match obs with Some ns => tag (names_ok ns) 13 | None => [] end
   | CRvsSingle d obs =>
       tag (olist_eqb (option_map (@concat id) (rvs_create_single d)) obs) 3 ++
-      match obs with Some ns => tag (names_ok ns) 13 | None => [] end ++ tag (names_ok d) 203
+      match obs with Some ns => tag (names_ok ns) 13 | None => [] end
   | CRvsAdd r d obs =>
-      tag (olist_eqb (Some (concat (rvs_add r d))) obs) 3 ++
-      match obs with Some ns => tag (names_ok ns) 13 | None => [] end ++ tag (g_fresh_names r d) 204
+      tag (olist_eqb (option_map (@concat id) (rvs_add r d)) obs) 3 ++
+      match obs with Some ns => tag (names_ok ns) 13 | None => [] end
   | CCanon base t nan l obs =>
       tag (match canon base t nan l, obs with
            | None, None => true | Some _, Some _ => true | _, _ => false end) 4 ++
